@@ -28,7 +28,7 @@ import (
 
 func TestMain(m *testing.M) {
 	vlib.Rule("C24: rapid-generated entries (all attribute fields, 0-120 chunks on both sides of the >50 compression threshold with file ids spelled canonically / with leading zeros / upper case / as Fid structs, source ids, cipher keys, flags; extended attributes; hard-link id+counter; inline content incl. 1f8b-prefixed bytes and real gzip; remote info) inserted and then updated through filer.FilerStoreWrapper on leveldb, leveldb2 and leveldb3 (plain, bucket-subdirectory and bucket-root paths); after each write FindEntry, ListDirectoryEntries and ListDirectoryPrefixedEntries must return the entry. Non-trivial = >50 chunks, or gzip-looking content/extended value, or a chunk with source id or cipher key. Distinct = distinct (store, path kind, entry pair) description.")
-	vlib.Assume("C24: string fields are valid UTF-8 (protobuf refuses others), times are whole seconds, names contain no NUL or '/', chunk file ids are well-formed with file key >= 1 (key 0 prints as "0,00000000", which ParseFileIdFromString rejects; sequencers start at 1); one store instance per kind is shared by all cases of a process, each case using its own directory.")
+	vlib.Assume("C24: string fields are valid UTF-8 (protobuf refuses others), times are whole seconds, names contain no NUL or '/', chunk file ids are well-formed with file key >= 1 (key 0 prints as 0,00000000 which ParseFileIdFromString rejects; sequencers start at 1); one store instance per kind is shared by all cases of a process, each case using its own directory.")
 	vlib.Assume("C24: ListDirectoryPrefixedEntries on these stores returns chunks with the Fid struct only (the wrapper does not call AfterEntryDeserialization on that path); the check accepts that as the same file id and compares after filling in the string form.")
 	vlib.Main(m) // exits the process; the scratch directories of the stores are removed by vlib
 }
